@@ -17,5 +17,13 @@ CHECKS = {
          "technique": "TLC enumerates every (reachable state, precondition-violating call) pair of spec/IR.tla; each is injected into the real classes and TLC checks post-state = pre-state",
          "text": "The fault space is (reachable abstract state) x (every mutator call whose arguments violate a precondition or the naming policy), enumerated by TLC; each refused call is executed on the real objects and the whole projected state before and after is compared by the TLC predicate C14_RefusedUnchanged.",
          "note": _IR_NOTE},
+ "C10": {"category": "model_checking", "design_ref": "5 (C10), 4, Appendix B",
+         "technique": "TLC model checking of the naming relation in spec/IR.tla (scopes naming, naming_edif, naming_mix) + replay with a full lookup table after every call + TLC trace validation (C10_Unique, C10_LegalIds, C10_RefusalExact, C10_LookupAgrees)",
+         "text": "The specification defines naming by scanning the current siblings (no index); TLC explores all histories of create/add/remove/re-add, rename, identifier set/delete/pop and name deletion over colliding names under the DEFAULT, EDIF and a mixed policy, and checks uniqueness and exact refusal on the model. Every explored call is replayed on the real classes; after each call every naming scope is queried for every alphabet value under both keys and TLC compares the answers with the scan and the refusals with the rule.",
+         "note": _IR_NOTE + " Names are atomic tokens over {a, A, b} with table-defined case folding; clone histories are covered by the C07 check."},
+ "C19": {"category": "model_checking", "design_ref": "5 (C19), Appendix A",
+         "technique": "TLC-explored call histories of spec/IR.tla replayed with a replay-only CallbackListener registered; TLC trace validation of C19_MirrorExact / C19_BeforeEffect / C19_Transparent",
+         "text": "Every (state, call) pair TLC explores in the IR scopes is executed with a listener that only replays announcements; TLC compares the listener's mirror with the membership-level abstraction of the observed state after every call (a missing, phantom or wrong announcement makes them differ), checks the bit recorded inside each callback that the announced change was not yet visible, and checks that the outcome and state are identical under the listener configurations none / mirror / mirror+passive / passive+mirror.",
+         "note": _IR_NOTE + " The mirror is order-insensitive (announcements carry no positions); an outer pin is identified by the pin object the announcement denotes. The model-side sufficiency of the announcement design (Listener.tla) is listed in DESIGN.md as future work."},
 }
 NOT_APPLICABLE = {}
